@@ -14,6 +14,7 @@ mod c11;
 mod c12;
 mod c13;
 mod c14;
+mod c15;
 mod c16;
 mod c17;
 mod c18;
@@ -53,6 +54,7 @@ fn lookup(id: &str) -> Option<(RunFn, CheckFn)> {
         "C12" => (c12::run, c12::check_record),
         "C13" => (c13::run, c13::check_record),
         "C14" => (c14::run, c14::check_record),
+        "C15" => (c15::run, c15::check_record),
         "C16" => (c16::run, c16::check_record),
         "C17" => (c17::run, c17::check_record),
         "C18" => (c18::run, c18::check_record),
